@@ -128,12 +128,46 @@ class FileTypeWithExt(argparse.FileType):
         # Add the file extension, if needed
         if not ext and self._ext:
             string += self._ext
+        if 'w' in self._mode:
+            # Do not create or truncate the output file while the arguments
+            # are still being parsed: the input may turn out to be invalid.
+            # The file is opened on the first write instead.
+            return _LazyOutputFile(string, self._mode, self._bufsize,
+                                   self._encoding, self._errors)
         try:
             return open(string, self._mode, self._bufsize, self._encoding,
                         self._errors)
         except OSError as e:
             message = _("can't open '%s': %s")
             raise argparse.ArgumentTypeError(message % (string, e))
+
+
+class _LazyOutputFile:
+    """
+    A write-only text file that is opened on the first call to
+    :meth:`write`, so a run that fails before any output is produced leaves
+    an existing file untouched.
+    """
+
+    def __init__(self, name, mode, bufsize, encoding, errors):
+        self.name = name
+        self._args = (mode, bufsize, encoding, errors)
+        self._file = None
+
+    def isatty(self):
+        return False
+
+    def write(self, s):
+        if self._file is None:
+            try:
+                self._file = open(self.name, *self._args)
+            except OSError as e:
+                sys.exit(_("can't open '%s': %s") % (self.name, e))
+        return self._file.write(s)
+
+    def close(self):
+        if self._file is not None:
+            self._file.close()
 
 
 def get_div(out_file: TextIO, char='_', line_width=50):
